@@ -77,6 +77,17 @@ func replayExtra(c map[string]string) {
 		return
 	}
 	switch c["kind"] {
+	case "DB":
+		dc := dynCase{Kind: "DB", Allow: c["allow"] == "true"}
+		if v, ok := c["init"]; ok && v != "null" {
+			s := v
+			dc.Init = &s
+		}
+		if err := json.Unmarshal([]byte(c["ops"]), &dc.Ops); err != nil {
+			fmt.Fprintln(os.Stderr, "bad replay ops:", err)
+			os.Exit(2)
+		}
+		runDynamic(dc)
 	case "S":
 		cc := concCase{Kind: "S"}
 		if v, ok := c["init"]; ok && v != "null" {
